@@ -25,6 +25,18 @@ def is_const_static(s):
     return bool(s.get("const"))
 
 
+def lock_factory_mutex(v, g):
+    """the mutex a function returning a lock object by value locks (constructor argument of the lock it builds), or None"""
+    eff, st, ex = run_function(v, g, hooks=Hooks())
+    found = set()
+    for x in flat(eff):
+        if x["e"] == "call" and re.search(r"(lock_guard|unique_lock|scoped_lock)<.*>::(lock_guard|unique_lock|scoped_lock)$", x["name"]) and x.get("args"):
+            a0 = x["args"][0]
+            if a0 is not None and sym.root_of(a0) is not None and sym.root_of(a0)[0] == "glob":
+                found.add(a0)
+    return found.pop() if len(found) == 1 else None
+
+
 def run(chk):
     prog = Program()
     chk.explanation = (
@@ -136,12 +148,29 @@ def run(chk):
                             nm = x["name"]
                             if re.search(r"(lock_guard|unique_lock|scoped_lock)<.*>::(lock_guard|unique_lock|scoped_lock)$", nm):
                                 m = x["args"][0] if x["args"] else None
+                                if m is not None and m[0] in ("obj", "call"):
+                                    # move construction from the lock a factory function returned: the mutex is the factory's
+                                    g_ = next((d_ for d_ in v.defs.values() if d_.name == m[1] or d_.q == m[1]), None)
+                                    m = lock_factory_mutex(v, g_) if g_ is not None else None
                                 locked = m
                                 if m is not None:
                                     mutexes.add(m)
                             elif nm.endswith("::lock") and "mutex" in nm:
                                 locked = x.get("this")
                                 mutexes.add(locked)
+                            elif x.get("usr") in v.defs and re.search(r"\b(unique_lock|lock_guard|scoped_lock)<", v.defs[x["usr"]].ret or ""):
+                                # a library function that hands out a lock (RAII object returned by value): the mutex is the one it
+                                # locks; the lock lives as long as the object the call initialises -- a call whose result is discarded
+                                # releases it at the end of the statement and protects nothing
+                                m = lock_factory_mutex(v, v.defs[x["usr"]])
+                                k_ = next(i_ for i_, y_ in enumerate(effs) if y_ is x)
+                                bound = any(y_["e"] == "store" and y_.get("val") == x.get("ret") for y_ in effs[k_ + 1:k_ + 3])
+                                if m is not None and bound:
+                                    locked = m
+                                    mutexes.add(m)
+                                elif m is not None:
+                                    chk.note("%s: the lock returned by %s at line %s is a discarded temporary: it is released at the end of that statement" % (
+                                        f.q, nm, x["l"]))
                             elif nm.startswith("fftw_") and nm not in FFTW_SAFE:
                                 sites += 1
                                 key = "%s: %s runs under the planner mutex" % (f.q, nm)
